@@ -129,6 +129,31 @@ def work_threshold(task):
     return acc.result()
 
 
+def work_scalar(task):
+    """one sensor, window 1: 1x1 MRFs and 0-d covariances (what np.cov returns for one column), K = 2, 3"""
+    from vlib import lib
+    lib.load("nojit")
+    (K,) = task
+    acc = Acc()
+    tvals = (0.5, 2.0, 1e-5, 3e-5, 7.0)
+    svals = (0.3, 1.7, 40.0)
+    for T in range(1, 6):
+        for si, labels in enumerate(itertools.product(range(K), repeat=T)):
+            thetas = [np.array([[tvals[(si + 2 * k) % len(tvals)]]]) for k in range(K)]
+            for form in ("0d", "1x1"):
+                Ss = [np.array(svals[(si + k) % len(svals)]) if form == "0d" else np.array([[svals[(si + k) % len(svals)]]])
+                      for k in range(K)]
+                acc.n += 1
+                acc.nontrivial += 1
+                msg = judge(labels, thetas, Ss, K)
+                if msg:
+                    acc.fail({"kind": "scalar", "K": K, "labels": list(labels), "form": form},
+                             f"one sensor, window 1, covariances stored as {form} arrays: " + msg)
+                    return acc.result()
+    acc.sample({"kind": "scalar", "K": K})
+    return acc.result()
+
+
 def work_scale(task):
     from vlib import lib
     lib.load("nojit")
@@ -163,10 +188,12 @@ def run(ctx):
     nth = len(small_thetas())
     for r in ctx.pmap(work_threshold, [(i, min(nth, i + 25)) for i in range(0, nth, 25)]):
         ctx.take(r)
+    for r in ctx.pmap(work_scalar, [(2,), (3,)]):
+        ctx.take(r)
     for r in ctx.pmap(work_scale, [(n,) for n in ((5, 50, 100, 200) if ctx.thorough else (5, 50, 100))]):
         ctx.take(r)
     L = 20
-    menu = [("k2a", [L], 1), ("k2m1", [L], 0), ("k2big", [1, L], 0), ("k2vec", [L], 0)]
+    menu = [("k2a", [L], 1), ("k2m1", [L], 0), ("k2big", [1, L], 0), ("k2vec", [L], 0), ("k2w1", [L], 0)]
     if ctx.thorough:
         menu += [("k2b", [L], 1), ("k3a", [L], 1), ("k2mat", [L], 0), ("k2eps", [L], 0)]
     ps = ml.e2_plans(ctx, menu, MONS, conform=False)
@@ -183,7 +210,7 @@ def run(ctx):
         "many runs) with 3x3 MRFs from a family whose off-diagonal magnitudes are {0,1e-5,2e-5,nextafter(2e-5),3e-5} "
         "with both signs (343 matrices, each also checked on 4 fixed sequences); every sequence with the run's options "
         "plain, with a per-pair switching cost holding exact zeros at the even / odd pairs, and one of {beta 0, biased + "
-        "matrix weight, window 3} (the definition mentions none of them); scale family NW in {5,50,100} with "
+        "matrix weight, window 3} (the definition mentions none of them); 1x1 MRFs with 0-d / 1x1 covariances for K in {2,3} and every label sequence up to length 5; scale family NW in {5,50,100} with "
         "log det in {-3000..3000}; oracle P ln T - 2 sum_k(ln det - tr(Theta S)) with Cholesky log-determinant and an "
         "explicit run-length scan, tolerance 1e-10 x sum|terms|, must be finite. (b) every enumerated main-loop run: "
         "reported BIC vs recomputation from the final model state. non-trivial = sequences where some cluster "
@@ -210,6 +237,8 @@ def replay(ctx, case):
         ctx.cov["evaluations"] = 1
         if msg:
             ctx.violation(case, msg)
+    elif k == "scalar":
+        ctx.take(work_scalar((case["K"],)))
     elif k == "threshold":
         ctx.take(work_threshold((case["i"], case["i"] + 1)))
     elif k == "scale":
